@@ -331,6 +331,10 @@ func emitCoq(r *result) string {
 		fmt.Fprintf(&sb, "  (%d, %s)%s (* %s *)\n", u.id, b, sep, coqComment(u.c))
 	}
 	sb.WriteString("].\n\n")
-	fmt.Fprintf(&sb, "(* lock operations the translator could not attribute to a class (must be empty) *)\nDefinition unresolved_lock_sites : N := %d.\n", len(r.Unresolved))
+	fmt.Fprintf(&sb, "(* lock operations the translator could not attribute to a class (must be empty) *)\nDefinition unresolved_lock_sites : N := %d.\n\n", len(r.Unresolved))
+	fmt.Fprintf(&sb, "(* functions that return holding a lock they acquired, other than the listed known finding(s):\n   the balance hypothesis of the progress theorem *)\nDefinition lock_leak_sites : N := %d.\n", len(r.LockLeaks))
+	for _, k := range r.KnownLockLeaks {
+		fmt.Fprintf(&sb, "(* known finding, excluded: %s *)\n", coqComment(k))
+	}
 	return sb.String()
 }
